@@ -72,7 +72,8 @@ pub fn gen_op(r: &mut Rng, kind: OpKind) -> Op {
         ItWrite => vec![slot(r), r.below(9)],
         ItFold | ItRfold => vec![slot(r), r.below(3)],
         ItCollect => vec![slot(r), r.below(4), len_idx(r)],
-        Map => vec![slot(r), r.below(3), r.below(6)],
+        ItCloneFrom | CloneFromArr => vec![slot(r), r.below(3)],
+        Map => vec![slot(r), r.below(3), r.below(7)],
         Fold => vec![slot(r), r.below(3), r.below(4)],
         // a[4]: 0 = both operands of the run's element kind, 1/2 = plain partner of another type on the left/right
         Zip => vec![slot(r), r.below(3), r.below(3), r.below(10), r.pick(&[0u32, 0, 0, 1, 2])],
@@ -138,6 +139,8 @@ pub const MOVES: &[(OpKind, u32)] = &[
     (ItLast, 2),
     (ItDebug, 1),
     (ItCollect, 3),
+    (ItCloneFrom, 2),
+    (CloneFromArr, 2),
     (Map, 6),
     (Zip, 7),
     (Fold, 4),
@@ -184,6 +187,7 @@ const ITER_OPS: &[(OpKind, u32)] = &[
     (ItLast, 2),
     (ItDebug, 3),
     (ItCollect, 2),
+    (ItCloneFrom, 4),
     (DropObj, 2),
 ];
 
@@ -214,6 +218,7 @@ const CALLBACK_OPS: &[(OpKind, u32)] = &[
     (Generate, 8),
     (DefaultArr, 4),
     (CloneArr, 6),
+    (CloneFromArr, 4),
     (Map, 10),
     (Zip, 14),
     (Fold, 8),
@@ -241,7 +246,7 @@ pub fn callback_seams(kind: OpKind) -> &'static [Seam] {
         Generate | BoxedGenerate | NestGen | BuilderRun | ConsumerRun | ItFold | ItRfold | Fold => &[Seam::Closure],
         Map | Zip => &[Seam::Closure, Seam::Closure, Seam::Clone],
         DefaultArr | DefaultBoxed => &[Seam::Default],
-        CloneArr | ItClone | BxClone | BoxArrMacro => &[Seam::Clone],
+        CloneArr | ItClone | BxClone | BoxArrMacro | ItCloneFrom | CloneFromArr => &[Seam::Clone],
         Collect => &[Seam::SrcNext],
         DeScripted | DeReal | SerReal => &[Seam::DeElem],
         _ => &[],
@@ -276,7 +281,10 @@ impl Abs {
     fn ready(&self, k: OpKind, args: &[u32; N_ARGS]) -> bool {
         match k {
             CloneArr | NativeRoundtrip | TupleRoundtrip | IntoIter | Append | Pop | Split | Remove | Unflatten | ArrToVec | ArrBox | ConsumerRun | SerRecord | SerReal => self.arrs > 0,
-            Map | Fold => if args[2] % (if k == Map { 6 } else { 4 }) == 3 { self.bxs > 0 } else { self.arrs > 0 },
+            Map => if matches!(args[2] % 7, 3 | 6) { self.bxs > 0 } else { self.arrs > 0 },
+            Fold => if args[2] % 4 == 3 { self.bxs > 0 } else { self.arrs > 0 },
+            ItCloneFrom => self.its > 1,
+            CloneFromArr => self.arrs > 1,
             Zip => if args[3] % 10 == 9 { self.bxs > 0 } else { self.arrs > 0 },
             Concat => self.arrs > 1,
             ItNext | ItNextBack | ItNth | ItNthBack | ItLen | ItWrite | ItClone | ItFold | ItRfold | ItCount | ItLast | ItDebug | ItCollect => self.its > 0,
@@ -349,7 +357,12 @@ fn with_fresh_operand(r: &mut Rng, ops: &mut Vec<Op>, target: &mut Op) -> Option
     let li = len_idx(r);
     let n = LENS[li as usize] as u32;
     match target.kind {
-        Map | Fold if target.args[2] % 4 == 3 => {
+        Map if matches!(target.args[2] % 7, 3 | 6) => {
+            ops.push(Op::new(Generate, &[li, 0]));
+            ops.push(Op::new(ArrBox, &[LAST]));
+            target.args[0] = LAST;
+        }
+        Fold if target.args[2] % 4 == 3 => {
             ops.push(Op::new(Generate, &[li, 0]));
             ops.push(Op::new(ArrBox, &[LAST]));
             target.args[0] = LAST;
@@ -358,6 +371,23 @@ fn with_fresh_operand(r: &mut Rng, ops: &mut Vec<Op>, target: &mut Op) -> Option
             ops.push(Op::new(Generate, &[li, 0]));
             ops.push(Op::new(ArrBox, &[LAST]));
             target.args[0] = LAST;
+        }
+        CloneFromArr => {
+            ops.push(Op::new(Generate, &[li, 0]));
+            ops.push(Op::new(Generate, &[li, 0]));
+            target.args[0] = LAST;
+            target.args[1] = 0;
+        }
+        ItCloneFrom => {
+            for _ in 0..2 {
+                ops.push(Op::new(Generate, &[li, 0]));
+                ops.push(Op::new(IntoIter, &[LAST]));
+                for _ in 0..r.below(3) {
+                    ops.push(Op::new(if r.chance(1, 2) { ItNext } else { ItNextBack }, &[LAST, r.below(2)]));
+                }
+            }
+            target.args[0] = LAST + r.below(2);
+            target.args[1] = 0;
         }
         Map | Fold | Zip | CloneArr | ConsumerRun | IntoIter | ArrToVec | ArrBox | Split | Remove | Pop | Append | SerRecord | SerReal | NativeRoundtrip | TupleRoundtrip | Unflatten => {
             ops.push(Op::new(Generate, &[li, 0]));
@@ -483,7 +513,16 @@ pub fn gen_trace(prop: Prop, seed: u64) -> Trace {
         Prop::C06 => {
             let elem = elem_kind(r, 60, 15, 25);
             let n = r.range(4, 40);
-            (elem, moves_trace(r, n, ITER_OPS))
+            let raw = moves_trace(r, n, ITER_OPS);
+            let mut ops = Vec::new();
+            for mut op in raw {
+                // clone_from needs two iterators over arrays of the same length
+                if op.kind == ItCloneFrom && r.chance(3, 4) {
+                    let _ = with_fresh_operand(r, &mut ops, &mut op);
+                }
+                ops.push(op);
+            }
+            (elem, ops)
         }
         Prop::C07 => {
             let elem = elem_kind(r, 70, 15, 15);
@@ -597,7 +636,7 @@ pub fn gen_trace(prop: Prop, seed: u64) -> Trace {
                         // adversarial script
                         if r.chance(3, 4) {
                             op.args[1] = match r.below(6) { 0 | 1 => nn, 2 => nn + 1, 3 => nn.saturating_sub(1), _ => r.below(nn + 3) };
-                            op.args[2] = r.below(5);
+                            op.args[2] = r.below(5) + 5 * (r.chance(1, 4) as u32);
                             op.args[3] = r.below(4);
                             op.args[4] = if r.chance(1, 3) { 1 + r.below(op.args[1] + 1) } else { 0 };
                         }
